@@ -119,7 +119,11 @@ pub fn plan(prop: &str, tier: &str) -> Option<Plan> {
             b.add("rc/reader-vs-root-reclaim", all, &[&[("age", 0)], &[("age", 4)]], bq);
             b.add("rc/reader-second-path", all, &[&[("age", 4), ("pre", 2)]], if quick { 2 } else { 3 });
             b.add("rc/reader-second-path", if quick { few } else { all }, &[&[("age", 0), ("pre", 2)], &[("age", 4), ("pre", 3)]], if quick { 2 } else { 3 });
-            b.add_sliced("rc/stalled-dropper", if quick { few } else { all }, &[&[("k", 0)]], 2, if quick { 8 } else { 4 });
+            b.add_sliced("rc/stalled-dropper", if quick { &[0i64, 11][..] } else { all }, &[&[("k", 0)]], 2, if quick { 8 } else { 4 });
+            // six threads: the dropper is pinned, its stamp one epoch behind, one more advance follows
+            if !quick {
+                b.add_sliced("rc/stalled-dropper", few, &[&[("k", 0), ("split", 1)]], 2, 16);
+            }
             if !quick {
                 b.add_sliced("rc/stalled-dropper", few, &[&[("k", 3)]], 2, 4);
             }
@@ -329,7 +333,9 @@ pub fn plan(prop: &str, tier: &str) -> Option<Plan> {
                     b.add_cases("ebr/guards", e(0).set("depth", depth).set("inside", inside).set("peer", peer), total, 400);
                 }
             }
-            b.add_cases("ebr/guards", e(0).set("orphan", 1), crate::scen::ebr::orphan_cases(if quick { 5 } else { 7 }), 100);
+            for orphan in [1, 2] {
+                b.add_cases("ebr/guards", e(0).set("orphan", orphan), crate::scen::ebr::orphan_cases(if quick { 5 } else { 7 }), 100);
+            }
             b.goal("ebr/guards", "orphan-guard-step");
             b.goal("ebr/guards", "reactivate-sole");
             b.goal("ebr/guards", "reactivate-after-sole");
